@@ -261,6 +261,7 @@ impl IntoIterator for BackoffStrategy {
         BackoffStrategyIter {
             strategy_type: self.strategy_type,
             current_attempt: 1,
+            exhausted: false,
             state: self.state,
         }
     }
@@ -271,6 +272,7 @@ pub struct BackoffStrategyIter {
     strategy_type: Strategy,
     state: BackoffStrategyState,
     current_attempt: u32,
+    exhausted: bool,
 }
 
 impl Iterator for BackoffStrategyIter {
@@ -282,17 +284,23 @@ impl Iterator for BackoffStrategyIter {
         let max_attempts = self.state.max_attempts;
         let current_attempt = self.current_attempt;
 
-        if current_attempt > max_attempts {
+        if self.exhausted || current_attempt > max_attempts {
             return None;
         }
 
         let mut next_duration = match self.strategy_type {
-            Strategy::Linear => step * current_attempt,
+            Strategy::Linear => step.saturating_mul(current_attempt),
             Strategy::Constant => step,
-            Strategy::Exponential(factor) => step.mul_f64(factor.pow(current_attempt - 1) as f64),
+            Strategy::Exponential(factor) => {
+                saturating_scale(step, (factor as u128).checked_pow(current_attempt - 1))
+            }
         };
 
-        self.current_attempt += 1;
+        // Saturate, so that `u32::MAX` attempts do not wrap around to attempt 0
+        match self.current_attempt.checked_add(1) {
+            Some(next_attempt) => self.current_attempt = next_attempt,
+            None => self.exhausted = true,
+        }
 
         if let Some(max) = max_duration {
             next_duration = next_duration.min(max);
@@ -305,6 +313,24 @@ impl Iterator for BackoffStrategyIter {
         };
 
         Some(next)
+    }
+}
+
+/// Multiplies `step` by `factor`, saturating at [Duration::MAX] instead of panicking on
+/// overflow. A `factor` of `None` stands for a factor that itself overflowed.
+fn saturating_scale(step: Duration, factor: Option<u128>) -> Duration {
+    const NANOS_PER_SEC: u128 = 1_000_000_000;
+
+    if step.is_zero() {
+        return Duration::ZERO;
+    }
+
+    match factor.and_then(|factor| step.as_nanos().checked_mul(factor)) {
+        Some(nanos) if nanos <= Duration::MAX.as_nanos() => Duration::new(
+            (nanos / NANOS_PER_SEC) as u64,
+            (nanos % NANOS_PER_SEC) as u32,
+        ),
+        _ => Duration::MAX,
     }
 }
 
